@@ -109,12 +109,12 @@ def Iter2.drain (it : Iter2 α) : List Bool → List (Option (α × α))
 
 /-! ### rayon producers -/
 
-/-- `ParIterator1D::split_at`.  `index = 0` is a `usize` underflow (`index - 1`) — a panic in
-debug builds; `index > steps` underflows `steps - index`. -/
+/-- `ParIterator1D::split_at` (after the `fix:` commit that guards `index == 0`; before it
+`index - 1` was a `usize` underflow, a panic in debug builds).  `index > steps` underflows
+`steps - index` — outside the `Producer` contract (`index ≤ len`). -/
 def split1 (p : Steps α) (k : Nat) : Outcome (Steps α × Steps α) :=
-  if k = 0 then .panic "split_at: index - 1 underflow"
-  else if k > p.n then .panic "split_at: steps - index underflow"
-  else .ok (⟨p.a, p.value (k - 1), k⟩, ⟨p.value k, p.b, p.n - k⟩)
+  if k > p.n then .panic "split_at: steps - index underflow"
+  else .ok (⟨p.a, if k = 0 then p.a else p.value (k - 1), k⟩, ⟨p.value k, p.b, p.n - k⟩)
 
 /-- `ParIterator2D` = `Iterator2D` restricted to `[lo, hi)` of the global index range -/
 structure Prod2 (α : Type) where
@@ -166,6 +166,69 @@ def leaves2 (p : Prod2 α) : SplitTree → Option (List (α × α))
 def SplitTree.Valid : SplitTree → Nat → Prop
   | .leaf, _ => True
   | .node k l r, n => 1 ≤ k ∧ k + 1 ≤ n ∧ l.Valid k ∧ r.Valid (n - k)
+
+/-- a split tree the `Producer` contract allows: every split index satisfies `0 ≤ k ≤ len`
+(`Valid t n → ValidC t n`) -/
+def SplitTree.ValidC : SplitTree → Nat → Prop
+  | .leaf, _ => True
+  | .node k l r, n => k ≤ n ∧ l.ValidC k ∧ r.ValidC (n - k)
+
+/-- lengths of the leaves of a split tree over a producer of length `n`, left to right
+(`none` if some split index exceeds the current length: `split_at` would panic) -/
+def leafLens : SplitTree → Nat → Option (List Nat)
+  | .leaf, n => some [n]
+  | .node k l r, n =>
+    if k ≤ n then
+      match leafLens l k, leafLens r (n - k) with
+      | some a, some b => some (a ++ b)
+      | _, _ => none
+    else none
+
+/-- the leaf producers of a split tree over the 1-D producer, left to right -/
+def leafProds1 (p : Steps α) : SplitTree → Option (List (Steps α))
+  | .leaf => some [p]
+  | .node k l r =>
+    match split1 p k with
+    | .ok (pl, pr) =>
+      match leafProds1 pl l, leafProds1 pr r with
+      | some a, some b => some (a ++ b)
+      | _, _ => none
+    | _ => none
+
+/-- the leaf producers of a split tree over the 2-D producer, left to right -/
+def leafProds2 (p : Prod2 α) : SplitTree → Option (List (Prod2 α))
+  | .leaf => some [p]
+  | .node k l r =>
+    match split2 p k with
+    | .ok (pl, pr) =>
+      match leafProds2 pl l, leafProds2 pr r with
+      | some a, some b => some (a ++ b)
+      | _, _ => none
+    | _ => none
+
+/-- rayon's reduction tree of a map–reduce (`.map(f).sum()`, `.map(f).reduce(..)`) over the 1-D
+producer: every leaf folds its items sequentially starting from `e` (the `Folder`), every node
+combines the results of its two halves (the `Reducer`) -/
+def reduce1 {M : Type} (op : M → M → M) (e : M) (f : α → M) (p : Steps α) : SplitTree → Option M
+  | .leaf => some ((p.collect.map f).foldl op e)
+  | .node k l r =>
+    match split1 p k with
+    | .ok (pl, pr) =>
+      match reduce1 op e f pl l, reduce1 op e f pr r with
+      | some a, some b => some (op a b)
+      | _, _ => none
+    | _ => none
+
+/-- the same over the 2-D producer -/
+def reduce2 {M : Type} (op : M → M → M) (e : M) (f : α × α → M) (p : Prod2 α) : SplitTree → Option M
+  | .leaf => some ((p.collect.map f).foldl op e)
+  | .node k l r =>
+    match split2 p k with
+    | .ok (pl, pr) =>
+      match reduce2 op e f pl l, reduce2 op e f pr r with
+      | some a, some b => some (op a b)
+      | _, _ => none
+    | _ => none
 
 /-! ### representation conversions (`si_iterator.rs`) on raw SI values -/
 
